@@ -275,7 +275,7 @@ func (e *Engine) evCall(c *ast.CallExpr, st *State) []Value {
 				}
 				return []Value{{"false", types.Typ[types.Bool]}}
 			}
-		case "lastInt", "lastResStr", "lastArgInt", "lastArgStr", "lastArgBool":
+		case "lastInt", "lastResStr", "lastResValue", "lastArgInt", "lastArgStr", "lastArgBool":
 			// lastInt("f"): first result of the latest call to f; lastArgInt("f", i): its i-th argument (`opt track`)
 			if e.isSpecHelper(id) {
 				tv := e.pk.Info.Types[c.Args[0]]
@@ -284,7 +284,7 @@ func (e *Engine) evCall(c *ast.CallExpr, st *State) []Value {
 				}
 				name := strings.Trim(tv.Value.ExactString(), "\"")
 				key := e.trackKey(name, 0)
-				if id.Name != "lastInt" && id.Name != "lastResStr" {
+				if id.Name != "lastInt" && id.Name != "lastResStr" && id.Name != "lastResValue" {
 					iv := e.pk.Info.Types[c.Args[1]]
 					n := 0
 					if iv.Value != nil {
